@@ -414,6 +414,9 @@ func (e *Exec) vpCall(caller *frame, fn *ssa.Function, args []Value) Value {
 	case "Unwind":
 		e.unwind = int(args[0].(*Term).k)
 		return nil
+	case "NoSpin":
+		e.spinLimit = int(args[0].(*Term).k)
+		return nil
 	case "MaxSteps":
 		e.maxSteps = int64(args[0].(*Term).k)
 		return nil
